@@ -15,6 +15,7 @@ import (
 	"com.tuntun.rangers/node/src/storage/trie"
 	"com.tuntun.rangers/node/src/zzverif/node"
 	"com.tuntun.rangers/node/src/zzverif/runner"
+	"com.tuntun.rangers/node/src/zzverif/simmap"
 	"com.tuntun.rangers/node/src/zzverif/simdisk"
 	"com.tuntun.rangers/node/src/zzverif/simrt"
 )
@@ -435,6 +436,7 @@ func (c04) Exec(raw json.RawMessage, stt *simrt.Stats, log *simrt.Log) *simrt.Vi
 	if err := json.Unmarshal(raw, &p); err != nil {
 		panic(runner.InfraError{Msg: "bad plan: " + err.Error()})
 	}
+	simmap.Seed = simrt.Mix(p.Seed, 0x6d6170) | 1 // seeded map iteration order (instrumented build)
 	stt.Evaluations++
 	viol := func(ev int, clause, where, f string, a ...interface{}) *simrt.Violation {
 		return simrt.Violationf("C04", clause, where, ev, f, a...)
